@@ -112,7 +112,7 @@ def concurrent_changes(run):
     """Location changes racing with each other and with a context transaction of the application: every interleaving
     the locks admit (specs/Threads.tla), executed on real threads; association invariants judged on every MdibVersion."""
     from verif.checks.c07 import run_scenarios
-    run_scenarios(run, run.pick(RACES_QUICK, RACES_THOROUGH), run.pick(40, 400),
+    run_scenarios(run, run.pick(RACES_QUICK, RACES_THOROUGH), run.pick(40, 250),
                   {'ctx_at_most_one_associated', 'ctx_binding_marks', 'one_version_per_commit', 'request_answered'},
                   prefix='c10')
 
@@ -121,7 +121,7 @@ def check(run, replay_path=None):
     concurrent_changes(run)
     res = run_tlc('ContextMC', 'Context_mc.cfg', coverage=True, timeout=1800)
     run.add_tlc(res, ['SetLocation', 'SetContextState'])
-    num = run.pick(150, 1500)     # (a session costs about half a second: 4000 did not finish within 50 minutes on a busy machine)
+    num = run.pick(150, 1000)     # (a session costs about half a second: 4000 did not finish within 50 minutes on a busy machine)
     pool = run.pick(800, 12000)
     res = run_tlc('ContextSim', 'Context_sim.cfg', workers=1, simulate=f'num={pool}', depth=16, seed=run.seed)
     run.add_tlc(res)
